@@ -647,3 +647,62 @@ pub fn props_replay(args: &[String]) {
     println!("{}", json!({"violations": bad.iter().map(|(k, d, _)| json!({"key": k, "text": d})).collect::<Vec<_>>(),
         "sig3": sig3(m, &items).0, "sig3a": sig3a(m, &[items.clone()]).0, "sig2": sig2(m, &items).0}));
 }
+
+// ---------------------------------------------------------------------------------------------
+// search aid for C01 (only after an obligation broke): Monte-Carlo estimate of the match
+// fraction against the exact probability Jaccard index, |z| > 6 only
+// ---------------------------------------------------------------------------------------------
+fn jp_exact(wa: &[f64], wb: &[f64]) -> f64 {
+    let mut jp = 0.;
+    for i in 0..wa.len() {
+        if wa[i] > 0. && wb[i] > 0. {
+            let mut den = 0.;
+            for j in 0..wa.len() {
+                den += (wa[j] / wa[i]).max(wb[j] / wb[i]);
+            }
+            jp += 1. / den;
+        }
+    }
+    jp
+}
+
+pub fn mc(args: &[String]) {
+    let seed = arg_u64(args, "--seed", 1);
+    let trials = arg_u64(args, "--trials", 1500) as usize;
+    std::panic::set_hook(Box::new(|_| {}));
+    let mut rng = SplitMix64::new(seed ^ 0x3C01);
+    let mut found: Vec<Value> = Vec::new();
+    let families: Vec<(&str, Vec<f64>, Vec<f64>)> = vec![
+        ("equal-overlap", (0..40).map(|i| if i < 30 { 1. } else { 0. }).collect(), (0..40).map(|i| if i >= 10 { 1. } else { 0. }).collect()),
+        ("unequal", (0..40).map(|i| if i < 30 { (i + 1) as f64 } else { 0. }).collect(), (0..40).map(|i| if i >= 10 { ((i * i) as f64).max(1.) } else { 0. }).collect()),
+        ("wild", (0..20).map(|i| (10f64).powi(i - 10)).collect(), (0..20).map(|i| (10f64).powi(10 - i)).collect()),
+        ("small", vec![1., 2.], vec![2., 1.]),
+    ];
+    for (name, wa, wb) in &families {
+        let jp = jp_exact(wa, wb);
+        for variant in ["3", "3a", "2", "3asha"] {
+            for m in [4usize, 64] {
+                let mut sum = 0.0f64;
+                for _ in 0..trials {
+                    let ids: Vec<u64> = (0..wa.len()).map(|_| rng.next_u64() >> 4).collect();
+                    let a: Vec<(u64, f64)> = ids.iter().zip(wa.iter()).filter(|(_, w)| **w > 0.).map(|(i, w)| (*i, *w)).collect();
+                    let b: Vec<(u64, f64)> = ids.iter().zip(wb.iter()).filter(|(_, w)| **w > 0.).map(|(i, w)| (*i, *w)).collect();
+                    let (sa, sb) = match variant {
+                        "3" => (sig3(m, &a).0, sig3(m, &b).0),
+                        "3a" => (sig3a(m, &[a.clone()]).0, sig3a(m, &[b.clone()]).0),
+                        "2" => (sig2(m, &a).0, sig2(m, &b).0),
+                        _ => (sig3asha(m, &[a.clone()]).0, sig3asha(m, &[b.clone()]).0),
+                    };
+                    sum += sa.iter().zip(sb.iter()).filter(|(x, y)| x == y).count() as f64 / m as f64;
+                }
+                let mean = sum / trials as f64;
+                let sigma = (jp * (1. - jp) / (m as f64 * trials as f64)).sqrt().max(1e-12);
+                let z = (mean - jp) / sigma;
+                if z.abs() > 6. {
+                    found.push(json!({"family": name, "variant": variant, "m": m, "jp": jp, "mean_match_fraction": mean, "z": z, "trials": trials, "seed": seed}));
+                }
+            }
+        }
+    }
+    println!("{}", json!({"found": found}));
+}
